@@ -71,6 +71,12 @@ def _exit_hints(v):
         out.append((induct.partition_lemma(kd), (DA.term, WA.term, N, z3.Select(B, 0, 0), z3.Select(B, nb - 1, 1))))
     if not isinstance(getattr(v, "weights", None), TArr):
         out.append((induct.constant_sum_lemma(), (N,)))
+    # non-negative weights give non-negative contents (conditional instances: the hypothesis is the caller's business)
+    out.append(("squares", WA.term))
+    for w in (WA.term, square_term(WA.term)):
+        out.append(("instance", induct.nonneg_lemma(kd), (DA.term, w, N)))
+    for which in ("below", "above"):
+        out.append(("instance", induct.nonneg_side_lemma(kd, which), (DA.term, WA.term, N)))
     if v.already_sorted is True or DA.gather_of is None:         # data_array = data[sort_order]
         return out
     p = DA.gather_of[1]
@@ -100,7 +106,8 @@ class _freq_u:
     lemmas = [induct.slice_sum_lemma(k) for k in ("int", "float")] + [induct.below_lemma(k) for k in ("int", "float")] \
         + [induct.above_lemma(k) for k in ("int", "float")] + [induct.adjacent_lemma(k) for k in ("int", "float")] \
         + [induct.partition_lemma(k) for k in ("int", "float")] + [induct.bins_sum_lemma(k) for k in ("int", "float")] \
-        + [induct.monotone_lemma(), induct.constant_sum_lemma()]
+        + [induct.monotone_lemma(), induct.constant_sum_lemma()] + [induct.nonneg_lemma(k) for k in ("int", "float")] \
+        + [induct.nonneg_side_lemma(k, w) for k in ("int", "float") for w in ("below", "above")]
     known = {
         # F19b: is_consecutive() compares with np.allclose: bins whose edges differ by less than the tolerance are treated as
         # consecutive, a value in the micro-gap is counted nowhere while under/overflow read as numbers
@@ -162,3 +169,74 @@ class _freq_u:
         return And(shape_of(f)[0] == n, shape_of(e)[0] == n,
                    forall(0, n, lambda j: And(f[j] == wsum(old.data, W, bins[j, 0], bins[j, 1], j == n - 1),
                                               e[j] == wsum(old.data, W, bins[j, 0], bins[j, 1], j == n - 1, square=True))))
+
+
+@contract("physt._facade:h1", props=["C01"], name="physt._facade:h1[any number of entries and bins]")
+class _h1_u:
+    """the facade end to end for a 1-D array of finite floats of ANY length and a binning object with ANY number of bins"""
+    probe = "quantifier-free"
+    lemmas = _freq_u.lemmas
+    known = {
+        "underflow_and_overflow_are_the_weight_below_and_above_for_consecutive_bins_otherwise_unknown":
+            [("F19b", lambda o: _micro_gap(attr(o.bins, "_bins")))],
+    }
+
+    def configs():
+        return [{"w": "none", "dropna": True, "keep_missed": True}, {"w": "float", "dropna": False, "keep_missed": True},
+                {"w": "float", "dropna": True, "keep_missed": False}]
+
+    def thorough_configs():
+        return [{"w": w, "dropna": d, "keep_missed": k} for w in ("none", "float", "int") for d in (True, False) for k in (True, False)]
+
+    def inputs(b):
+        n, N = nbins(b), b.int("N")
+        b.assume(N >= 0)
+        kw = dict(data=b.tarray("data", (N,)), bins=static_binning_t(b, "B", n), dropna=b.cfg.dropna, keep_missed=b.cfg.keep_missed)
+        if b.cfg.w != "none":
+            kw["weights"] = b.tarray("weights", (N,), "float64" if b.cfg.w == "float" else "int64")
+            b.assume(forall(0, N, lambda i: kw["weights"][i] >= 0))       # requires: weights >= 0 (C18: negative contents are refused)
+        return kw
+
+    @raises(ValueError, "no_bins")
+    def _(a):
+        return shape_of(attr(a.bins, "_bins"))[0] == 0
+
+    @ensures("every_bin_holds_the_weight_of_exactly_the_entries_inside_it_last_bin_closed")
+    def _(a, old, result):
+        f, e = attr(result, "_frequencies"), attr(result, "_errors2")
+        bins = attr(old.bins, "_bins")
+        n = shape_of(bins)[0]
+        W = getattr(old, "weights", None)
+        return And(typename(result) == "Histogram1D", shape_of(f)[0] == n, shape_of(e)[0] == n,
+                   forall(0, n, lambda j: And(f[j] == wsum(old.data, W, bins[j, 0], bins[j, 1], j == n - 1),
+                                              e[j] == wsum(old.data, W, bins[j, 0], bins[j, 1], j == n - 1, square=True))))
+
+    @ensures("underflow_and_overflow_are_the_weight_below_and_above_for_consecutive_bins_otherwise_unknown")
+    def _(a, old, result):
+        bins = attr(old.bins, "_bins")
+        n = shape_of(bins)[0]
+        W = getattr(old, "weights", None)
+        m = elems(attr(result, "_missed"))
+        if not old.keep_missed:
+            return And(m[0] == 0, m[1] == 0, m[2] == 0)
+        cons = forall(0, n - 1, lambda k: bins[k, 1] == bins[k + 1, 0])
+        return And(Implies(cons, lambda: And(m[0] == wside("below", old.data, W, bins[0, 0]), m[1] == wside("above", old.data, W, bins[n - 1, 1]))),
+                   Implies(Not(cons), lambda: And(isnan(m[0]), isnan(m[1]))), m[2] == 0)
+
+    @ensures("for_exactly_consecutive_bins_total_plus_underflow_plus_overflow_is_the_total_input_weight")
+    def _(a, old, result):
+        bins = attr(old.bins, "_bins")
+        n = shape_of(bins)[0]
+        W = getattr(old, "weights", None)
+        m = elems(attr(result, "_missed"))
+        if not old.keep_missed:
+            return True
+        cons = forall(0, n - 1, lambda k: bins[k, 1] == bins[k + 1, 0])
+        total_weight = shape_of(old.data)[0] if W is None else total_t(W)
+        return Implies(cons, lambda: total_t(attr(result, "_frequencies")) + m[0] + m[1] == total_weight)
+
+    @ensures("the_histogram_uses_the_given_bins_and_the_inputs_are_not_modified")
+    def _(a, old, result):
+        W = getattr(old, "weights", None)
+        return And(same(attr(attr(result, "_binnings")[0], "_bins"), attr(old.bins, "_bins")),
+                   same(a.data, old.data), True if W is None else same(a.weights, W))
